@@ -14,6 +14,16 @@ from paramiko import pipe as ppipe, buffered_pipe, channel as pchannel
 from paramiko.message import Message
 
 PID = "C24"
+META = {
+    "level": "exploration",
+    "technique": "stateless schedule exploration, preemption-bounded, line granularity",
+    "text": "Every schedule with <=2 (quick) / <=3 (thorough) preemptions of 2-3 threads doing feed/recv/eof/"
+            "unlink/fileno on a real Channel with a real os.pipe; every line of pipe.py, buffered_pipe.py "
+            "and the channel's pipe-maintaining functions is a scheduling point; at the end the descriptor "
+            "must be readable iff data/EOF/closed.",
+    "note": "atomicity = source line in the traced files; CPython; POSIX pipe",
+    "design_ref": "4/C24",
+}
 TRACE = {
     ppipe.__file__: None,
     buffered_pipe.__file__: None,
